@@ -97,7 +97,8 @@ def nonzero_instances(ctx, em, rule, text, floor, chain_filter, consequence):
     ix = ctx.ix
     ctx.rule(rule, text, floor)
     movers = movers_of(ctx)
-    if len(movers) < 3:
+    if len(movers) < 2:
+        # (bank/cw20 transfer constructor(s) and the insurance-fund withdrawal; the engine may merge its transfer constructors)
         ctx.lost(rule, "token-moving message constructors (found %d)" % len(movers))
 
     def emitters(fn, m, inherited, chain, depth, out):
